@@ -34,7 +34,7 @@ func workerCmd(p *Prop, mode string, args ...string) *exec.Cmd {
 		cmd = exec.Command(filepath.Join(bin, "vsim-race"), append([]string{mode}, args...)...)
 		os.MkdirAll(filepath.Join(VerifDir(), "build", "race"), 0o755)
 		cmd.Env = append(os.Environ(), "GOMAXPROCS=2",
-			"GORACE=halt_on_error=0 exitcode=0 suppress_equal_stacks=0 suppress_equal_addresses=0 log_path="+filepath.Join(VerifDir(), "build", "race", mode))
+			"GORACE=halt_on_error=0 exitcode=0 history_size=7 suppress_equal_stacks=0 suppress_equal_addresses=0 log_path="+filepath.Join(VerifDir(), "build", "race", mode))
 	default:
 		cmd = exec.Command(filepath.Join(bin, "vsim"), append([]string{mode}, args...)...)
 		cmd.Env = os.Environ()
